@@ -7,19 +7,12 @@ import UbxModel.Model.Tty
 import UbxModel.Model.Render
 import UbxModel.Spec.Scan
 import UbxModel.Model.RenderKeys
+import UbxModel.Model.Messages
+import UbxModel.Model.ValSetGet
+import UbxModel.Model.Level
+import UbxModel.Driver.Common
 open Ubx
-
-def hexVal (c : Char) : Nat :=
-  if '0' ≤ c ∧ c ≤ '9' then c.toNat - 48 else if 'a' ≤ c ∧ c ≤ 'f' then c.toNat - 87 else c.toNat - 55
-
-def parseHex (s : String) : List Nat :=
-  let rec go : List Char → List Nat
-    | a :: b :: r => (hexVal a * 16 + hexVal b) :: go r
-    | _ => []
-  go s.toList
-
-def hexDigit (n : Nat) : Char := if n < 10 then Char.ofNat (48 + n) else Char.ofNat (87 + n)
-def toHex (bs : List Nat) : String := String.mk (bs.flatMap fun b => [hexDigit (b / 16), hexDigit (b % 16)])
+open DriverCommon
 
 def parseCid (s : String) : Cid :=
   match s.splitOn ":" with
@@ -60,6 +53,93 @@ def runNmea (ops : String) : String :=
   let p := (ops.splitOn ";").foldl step {}
   s!"rx={p.framesRx}"
 
+/-- `specscan|hex`: the reference scanner's events -/
+def runSpecScan (h : String) : String :=
+  let evs := Spec.scan 1000 (parseHex h)
+  ";".intercalate (evs.map fun | .frame c i pl => s!"{c}/{i}:{toHex pl}" | .bad => "crc")
+
+def showExc : Exc → String
+  | .valueError => "ValueError" | .structError => "error" | .keyError => "KeyError" | .typeError => "TypeError"
+  | .attributeError => "AttributeError" | .indexError => "IndexError" | .assertionError => "AssertionError"
+  | .recursionError => "RecursionError" | .nonAscii => "nonascii"
+
+def showVal : Val → String
+  | .int v => toString v
+  | .str s => "s:" ++ toHex s
+
+/-- static tables by class name -/
+def staticTable (cls : String) : Option Table :=
+  match cls with
+  | "UbxAckAck" => some Gen.UbxAckAck | "UbxAckNak" => some Gen.UbxAckNak
+  | "UbxCfgCfgAction" => some Gen.UbxCfgCfgAction | "UbxCfgEsfAlg" => some Gen.UbxCfgEsfAlg
+  | "UbxCfgEsflaSet" => some Gen.UbxCfgEsflaSet | "UbxCfgNav5" => some Gen.UbxCfgNav5
+  | "UbxCfgNavx5" => some Gen.UbxCfgNavx5 | "UbxCfgNmea" => some Gen.UbxCfgNmea
+  | "UbxCfgPrtUart" => some Gen.UbxCfgPrtUart | "UbxCfgPrtPoll" => some Gen.UbxCfgPrtPoll
+  | "UbxCfgRate" => some Gen.UbxCfgRate | "UbxCfgRstAction" => some Gen.UbxCfgRstAction
+  | "UbxCfgTp5" => some Gen.UbxCfgTp5 | "UbxCfgTp5Poll" => some Gen.UbxCfgTp5Poll
+  | "UbxEsfAlg" => some Gen.UbxEsfAlg | "UbxEsfMeas" => some Gen.UbxEsfMeas
+  | "UbxMgaAckData0" => some Gen.UbxMgaAckData0 | "UbxMgaIniTimeUtc" => some Gen.UbxMgaIniTimeUtc
+  | "UbxNavStatus" => some Gen.UbxNavStatus | "UbxUpdSos" => some Gen.UbxUpdSos
+  | "UbxUpdSosAction" => some Gen.UbxUpdSosAction
+  | _ => none
+
+/-- `Class.construct(payload)` → (field table of the object, values) -/
+def decodeClass (cls : String) (pl : List Nat) : Option (Except Exc (Table × List Val)) :=
+  match cls with
+  | "UbxCfgGnss" => some (decodeGnss pl)
+  | "UbxCfgEsfla" => some (decodeEsfla pl)
+  | "UbxEsfStatus" => some (decodeEsfStatus pl)
+  | "UbxMonVer" => some (decodeMonVer pl)
+  | _ => (staticTable cls).map fun t => (t.decode pl).map fun r => (t, r.1)
+
+def isPad : Kind → Bool | .pad _ => true | _ => false
+
+def showFields (t : Table) (vs : List Val) : String :=
+  String.intercalate "," (((t.zip vs).filter fun x => !isPad x.1.2).map fun x => x.1.1 ++ "=" ++ showVal x.2)
+
+/-- `fields|<class>|<payload hex>`: construct(payload) then pack(): decoded values, re-encoded bytes -/
+def runFields (cls pl : String) : String :=
+  match decodeClass cls (parseHex pl) with
+  | none => "no-table"
+  | some (.error e) => "EXC:" ++ showExc e
+  | some (.ok (t, vs)) =>
+      match t.encode vs with
+      | .error e => showFields t vs ++ " pack=EXC:" ++ showExc e
+      | .ok bs => showFields t vs ++ " pack=" ++ toHex bs
+
+def parseVal (s : String) : Val :=
+  if s.startsWith "s:" then .str (parseHex (String.ofList (s.toList.drop 2))) else .int (parseInt s)
+
+def setField (t : Table) (vs : List Val) (name : String) (v : Val) : List Val :=
+  match t.findIdx? (fun x => x.1 == name) with
+  | some i => vs.set i v
+  | none => vs
+
+def getField (t : Table) (vs : List Val) (name : String) : Option Val :=
+  ((t.zip vs).find? fun x => x.1.1 == name).map (·.2)
+
+/-- `assign|<class>|<payload hex>|<field>|<value>`: construct, assign one field, pack, construct again -/
+def runAssign (cls pl field val : String) : String :=
+  match decodeClass cls (parseHex pl) with
+  | none => "no-table"
+  | some (.error e) => "EXC:" ++ showExc e
+  | some (.ok (t, vs)) =>
+      match t.encode (setField t vs field (parseVal val)) with
+      | .error e => "pack=EXC:" ++ showExc e
+      | .ok bs =>
+          match decodeClass cls bs with
+          | some (.ok (t', vs')) =>
+              s!"pack={toHex bs} back={match getField t' vs' field with | some v => showVal v | none => "missing"}"
+          | some (.error e) => s!"pack={toHex bs} back=EXC:{showExc e}"
+          | none => "no-table"
+
+/-- the response class of a poll: a number n = a synthetic class that decodes payloads of at least n bytes,
+    otherwise the name of a real class, decodable iff `construct(payload)` succeeds in the model -/
+def respInfo (tok : String) : ClassInfo :=
+  if tok.all Char.isDigit && !tok.isEmpty then ⟨"resp", fun p => decide (tok.toNat! ≤ p.length)⟩
+  else if tok == "UbxCfgValGet" then ⟨tok, fun p => match valgetDecode p with | .ok _ => true | .error _ => false⟩
+  else ⟨tok, fun p => match decodeClass tok p with | some (.ok _) => true | _ => false⟩
+
 def showCalls (cs : List Call) : String :=
   String.mk (cs.map fun | .flush => 'f' | .tx _ => 't' | .rx => 'r' | .recover => 'v')
 
@@ -75,7 +155,7 @@ def runSrv (f : List String) : String :=
       | _ => (125, [])
     let env : Env := { tx := fun k => txl.getD k true, rx := fun j => rxl.getD j (100 * 125, []) }
     let req : Req := { cid := parseCid cid, payload := parseHex pl,
-                       response := ⟨"resp", fun p => decide (minLen.toNat! ≤ p.length)⟩ }
+                       response := respInfo minLen }
     let s : Srv := { retries := retries.toNat!, delay := delay.toNat! * 128 }
     let lg0 : Log := { now := 1024 * 1024 * 125 }
     let showRes (r : Option RFrame) (lg : Log) : String :=
@@ -106,7 +186,7 @@ def runSeq (f : List String) : String :=
       match r.splitOn "/" with
       | [kind, cid, pl, minLen] =>
         let req : Req := { cid := parseCid cid, payload := parseHex pl,
-                           response := ⟨"resp", fun p => decide (minLen.toNat! ≤ p.length)⟩ }
+                           response := respInfo minLen }
         let showRes (r : Option RFrame) : String :=
           match r with | some fr => s!"{fr.cid.cls}/{fr.cid.id}:{fr.tag}:{toHex fr.payload}" | none => "none"
         match kind with
@@ -121,55 +201,127 @@ def runSeq (f : List String) : String :=
     s!"{";".intercalate outs} sent={lg.sent.length} nrx={lg.nRx} t={(lg.now - lg0.now) / 125} calls={showCalls lg.calls}"
   | _ => "bad-seq"
 
-/-- `specscan|hex`: the reference scanner's events -/
-def runSpecScan (h : String) : String :=
-  let evs := Spec.scan 1000 (parseHex h)
-  ";".intercalate (evs.map fun | .frame c i pl => s!"{c}/{i}:{toHex pl}" | .bad => "crc")
+def parseItem (e : String) : CfgItem :=
+  match e.splitOn "," with
+  | [g, i, b, sg, v] => { group := parseInt g, item := parseInt i, bits := b.toNat!, signed := sg == "1", value := parseInt v }
+  | _ => { group := -1, item := 0, bits := 0, signed := false, value := 0 }
 
-def showExc : Exc → String
-  | .valueError => "ValueError" | .structError => "error" | .keyError => "KeyError" | .typeError => "TypeError"
-  | .attributeError => "AttributeError" | .indexError => "IndexError" | .assertionError => "AssertionError"
-  | .recursionError => "RecursionError" | .nonAscii => "nonascii"
+def showItem' (c : CfgItem) : String := s!"{c.group},{c.item},{c.bits},{if c.signed then 1 else 0},{c.value}"
 
-def showVal : Val → String
-  | .int v => toString v
-  | .str s => "s:" ++ toHex s
+/-- `valset|item;item;…`, `valgetpoll|key,key,…`, `valget|<payload hex>` -/
+def runValset (items : String) : String :=
+  match valsetPayload ((items.splitOn ";").map parseItem) with
+  | .ok bs => toHex bs
+  | .error e => "EXC:" ++ showExc e
+def runValgetPoll (keys : String) : String :=
+  match valgetPollPayload ((keys.splitOn ",").map parseInt) with
+  | .ok bs => toHex bs
+  | .error e => "EXC:" ++ showExc e
+def runValget (pl : String) : String :=
+  match valgetDecode (parseHex pl) with
+  | .ok (v, l, p, items) => s!"{v},{l},{p} " ++ ";".intercalate (items.map showItem')
+  | .error e => "EXC:" ++ showExc e
 
-/-- static tables by class name (the dynamic ones are assembled from header + blocks) -/
-def tableOf (cls : String) (pl : List Nat) : Option Table :=
-  match cls with
-  | "UbxAckAck" => some Gen.UbxAckAck | "UbxAckNak" => some Gen.UbxAckNak
-  | "UbxCfgCfgAction" => some Gen.UbxCfgCfgAction | "UbxCfgEsfAlg" => some Gen.UbxCfgEsfAlg
-  | "UbxCfgEsflaSet" => some Gen.UbxCfgEsflaSet | "UbxCfgNav5" => some Gen.UbxCfgNav5
-  | "UbxCfgNavx5" => some Gen.UbxCfgNavx5 | "UbxCfgNmea" => some Gen.UbxCfgNmea
-  | "UbxCfgPrtUart" => some Gen.UbxCfgPrtUart | "UbxCfgPrtPoll" => some Gen.UbxCfgPrtPoll
-  | "UbxCfgRate" => some Gen.UbxCfgRate | "UbxCfgRstAction" => some Gen.UbxCfgRstAction
-  | "UbxCfgTp5" => some Gen.UbxCfgTp5 | "UbxCfgTp5Poll" => some Gen.UbxCfgTp5Poll
-  | "UbxEsfAlg" => some Gen.UbxEsfAlg | "UbxEsfMeas" => some Gen.UbxEsfMeas
-  | "UbxMgaAckData0" => some Gen.UbxMgaAckData0 | "UbxMgaIniTimeUtc" => some Gen.UbxMgaIniTimeUtc
-  | "UbxNavStatus" => some Gen.UbxNavStatus | "UbxUpdSos" => some Gen.UbxUpdSos
-  | "UbxUpdSosAction" => some Gen.UbxUpdSosAction
-  | "UbxCfgGnss" => some (Gen.UbxCfgGnss_header ++ (List.range (pl.getD 3 0)).flatMap Gen.UbxCfgGnss_block)
-  | "UbxEsfStatus" => some (Gen.UbxEsfStatus_header ++ (List.range (pl.getD 15 0)).flatMap Gen.UbxEsfStatus_block)
-  | "UbxMonVer" => some (Gen.UbxMonVer_header ++ (List.range ((pl.length - 40) / 30)).flatMap Gen.UbxMonVer_block)
-  | _ => none
+def encodeOr (t : Table) (vs : List Val) : String :=
+  match t.encode vs with
+  | .ok bs => toHex bs
+  | .error e => "EXC:" ++ showExc e
 
-/-- `fields|<class>|<payload hex>`: construct(payload) then pack(): decoded values, re-encoded bytes -/
-def runFields (cls pl : String) : String :=
-  let payload := parseHex pl
-  match tableOf cls payload with
+def freshVals (t : Table) : List Val := t.map fun x => x.2.default
+
+def setInts (t : Table) (vs : List Val) (kv : List (String × Int)) : List Val :=
+  kv.foldl (fun acc x => setField t acc x.1 (.int x.2)) vs
+
+/-- `helper|<name>|args…`: the convenience setters applied to a fresh (or decoded) frame, then `pack()` -/
+def runHelper (f : List String) : String :=
+  match f with
+  | ["rate", r, pl] =>
+      match Gen.UbxCfgRate.decode (parseHex pl) with
+      | .error e => "EXC:" ++ showExc e
+      | .ok (vs, _) =>
+        let r := parseInt r
+        if r < 1 ∨ r > 10 then "EXC:AssertionError"
+        else
+          let (m, n) := setRateInHz r.toNat
+          encodeOr Gen.UbxCfgRate (setInts Gen.UbxCfgRate vs [("measRate", m), ("navRate", n)])
+  | ["save", m] =>
+      let (c, s, l) := cfgSave m.toNat!
+      let t := Gen.UbxCfgCfgAction
+      encodeOr t (setInts t (freshVals t) [("clearMask", c), ("saveMask", s), ("loadMask", l)])
+  | ["reset", m] =>
+      let (c, s, l) := cfgReset m.toNat!
+      let t := Gen.UbxCfgCfgAction
+      encodeOr t (setInts t (freshVals t) [("clearMask", c), ("saveMask", s), ("loadMask", l)])
+  | ["rst", a] =>
+      let (mask, mode) := match a with
+        | "warm_start" => rstWarmStart | "cold_start" => rstColdStart | "start" => rstStart | _ => rstStop
+      let t := Gen.UbxCfgRstAction
+      encodeOr t (setInts t (freshVals t) [("navBbrMask", mask), ("resetMode", mode)])
+  | ["sos", a] =>
+      let t := Gen.UbxUpdSosAction
+      encodeOr t (setInts t (freshVals t) [("cmd", if a == "backup" then sosBackup else sosClear)])
+  | ["esflaset", ty, x, y, z] =>
+      let t := Gen.UbxCfgEsflaSet
+      match esflaSet (parseInt ty) (parseInt x) (parseInt y) (parseInt z) with
+      | none => "EXC:AssertionError"
+      | some [v, n, _, lt, _, lx, ly, lz] =>
+          encodeOr t (setInts t (freshVals t) [("version", v), ("numConfigs", n), ("leverArmType", lt),
+            ("leverArmX", lx), ("leverArmY", ly), ("leverArmZ", lz)])
+      | some _ => "bad-model"
+  | ["utc", y, mo, d, h, mi, s] =>
+      let t := Gen.UbxMgaIniTimeUtc
+      match setDatetime y.toNat! mo.toNat! d.toNat! h.toNat! mi.toNat! s.toNat! with
+      | [ty, ver, rf, leap, yy, mm, dd, hh, mn, ss, _, ns, tas, _, tan] =>
+          encodeOr t (setInts t (freshVals t) [("type", ty), ("version", ver), ("ref", rf), ("leapSecs", leap), ("year", yy),
+            ("month", mm), ("day", dd), ("hour", hh), ("minute", mn), ("second", ss), ("ns", ns), ("tAccS", tas), ("tAccNs", tan)])
+      | _ => "bad-model"
+  | ["leverarm", ty, pl] =>
+      match decodeEsfla (parseHex pl) with
+      | .error e => "EXC:" ++ showExc e
+      | .ok (t, vs) =>
+        let n := fieldNat t vs "numConfigs"
+        let geti (name : String) : Int := match getField t vs name with | some (.int v) => v | _ => 0
+        let arms := (List.range n).map fun i =>
+          ((geti s!"leverArmType_{i}").toNat, geti s!"leverArmX_{i}", geti s!"leverArmY_{i}", geti s!"leverArmZ_{i}")
+        match leverArm arms ty.toNat! with
+        | some (x, y, z) => s!"{x},{y},{z}"
+        | none => "none"
+  | _ => "bad-line"
+
+/-- renderer of a field: the item class the code uses for it (generated `itemClasses`; block fields are
+    listed under their `_0` name) -/
+def rkindOf (cls field : String) : Ubx.Render.RKind :=
+  let base := match field.splitOn "_" with
+    | [a, b] => if b.all Char.isDigit && !b.isEmpty then a ++ "_0" else field
+    | _ => field
+  match Gen.itemClasses.find? (fun e => e.1 == cls && (e.2.1 == field || e.2.1 == base)) with
+  | some e => Ubx.Render.kindOf e.2.2
+  | none => .plain
+
+def valNat : Val → Nat | .int v => v.toNat | .str _ => 0
+
+/-- `str|<class>|<payload hex or ->|field=value,…`: `str(frame)` of a fresh / decoded / edited frame -/
+def runStr (cls pl edits : String) : String :=
+  let dyn := cls == "UbxCfgGnss" || cls == "UbxCfgEsfla" || cls == "UbxEsfStatus" || cls == "UbxMonVer"
+  let start : Option (Except Exc (Table × List Val)) :=
+    if pl == "-" then (if dyn then some (.ok ([], [])) else (staticTable cls).map fun t => .ok (t, freshVals t))
+    else decodeClass cls (parseHex pl)
+  match start with
   | none => "no-table"
-  | some t =>
-    match t.decode payload with
+  | some (.error e) => "EXC:" ++ showExc e
+  | some (.ok (t, vs)) =>
+    let cur := if edits.isEmpty then vs else (edits.splitOn ",").foldl (fun acc e =>
+      match e.splitOn "=" with
+      | [k, v] => setField t acc k (parseVal v)
+      | _ => acc) vs
+    let fields := ((t.zip (cur.zip vs)).filter fun x => !isPad x.1.2).map fun x =>
+      (x.1.1, rkindOf cls x.1.1, valNat x.2.1, valNat x.2.2)
+    let info := Gen.frameClasses.find? fun e => e.1 == cls
+    let name := match info with | some e => e.2.2.2 | none => "?"
+    let cid : Cid := match info with | some e => ⟨e.2.1, e.2.2.1⟩ | none => ⟨0, 0⟩
+    match Ubx.Render.frameText name cid fields with
+    | .ok _ => "ok name=true missing=-"
     | .error e => "EXC:" ++ showExc e
-    | .ok (vs, _) =>
-      let names := (t.zip vs).filter (fun x => match x.1.2 with | .pad _ => false | _ => true)
-      let dec := String.intercalate "," (names.map fun x => x.1.1 ++ "=" ++ showVal x.2)
-      match t.encode vs with
-      | .error e => dec ++ " pack=EXC:" ++ showExc e
-      | .ok bs => dec ++ " pack=" ++ toHex bs
-
-def parseInt (s : String) : Int := if s.startsWith "-" then -((s.drop 1).toNat! : Int) else (s.toNat! : Int)
 
 /-- `keypack|group|item|bits|signed|value` and `keyunpack|hex` and `fromkey|key|value` -/
 def showItem (c : CfgItem) : String := s!"{c.group},{c.item},{c.bits},{if c.signed then 1 else 0},{c.value}"
@@ -273,15 +425,55 @@ def runGpsd (req chunks : String) : String :=
   let (_, out) := (chunks.splitOn "/").foldl step (.ok (Ubx.Gpsd.State.init name), [])
   String.intercalate " " out
 
-/-- `frame|cls|id|<payload hex>` → to_bytes() twice; `ck|a|b` → next states for all 256 bytes from state (a, b) -/
+/-- `frame|cls|id|<payload hex>` → to_bytes() twice; `framegen|cls|id|len|seed|mode` the same on a generated payload -/
 def runFrame (c i pl : String) : String :=
   let f : Frame := { cls := c.toNat!, id := i.toNat!, data := parseHex pl }
   let (f1, b1) := f.toBytes
   let (_, b2) := f1.toBytes
   toHex b1 ++ " " ++ (if b1 == b2 && f1.data == f.data then "same" else "DIFF")
+def runFrameGen (c i len seed mode : String) : String :=
+  let f : Frame := { cls := c.toNat!, id := i.toNat!, data := lcgPayload len.toNat! seed.toNat! mode.toNat! }
+  let (f1, b1) := f.toBytes
+  let (_, b2) := f1.toBytes
+  summary b1 ++ " " ++ (if b1 == b2 && f1.data == f.data then "same" else "DIFF")
+/-- `ck|a|b` → next states for all 256 bytes from state (a, b); `ckrow|a` digest over all b and bytes;
+    `ckm|a|b` the pairs `matches` accepts, and `reset`; `ckseq|hex` value after reset + adds -/
 def runCk (a b : String) : String :=
   let c : Ck := ⟨a.toNat!, b.toNat!⟩
   toHex ((List.range 256).flatMap fun x => let n := c.add x; [n.a, n.b])
+def runCkRow (a : String) : String :=
+  let a := a.toNat!
+  toString ((List.range 256).foldl (fun h b => (List.range 256).foldl (fun h x =>
+    let n := (⟨a, b⟩ : Ck).add x; ((h * 31 + n.a) * 31 + n.b) % 4294967296) h) 0)
+def runCkM (a b : String) : String :=
+  let c : Ck := ⟨a.toNat!, b.toNat!⟩
+  let hits := (List.range 256).flatMap fun x => ((List.range 256).filter fun y => c.matches x y).map fun y => s!"{x}:{y}"
+  ",".intercalate hits ++ s!" reset={c.reset.value.1}:{c.reset.value.2}"
+def runCkSeq (h : String) : String :=
+  let c := ((Ck.zero.add 0x55).reset).addAll (parseHex h)
+  s!"{c.value.1},{c.value.2} {c.matches c.value.1 c.value.2}"
+
+/-- `tty|transmit|<write result or ->|<hex>` and `tty|recover|<baud>` -/
+def runTty (f : List String) : String :=
+  match f with
+  | ["transmit", w, h] =>
+      let data := parseHex h
+      let written := if w == "-" then data.length else w.toNat!
+      s!"{Ubx.Tty.transmit written data} wrote=exact"
+  | ["recover", baud] =>
+      let p := Ubx.Tty.recover { isOpen := true, baud := baud.toNat! }
+      s!"open={p.isOpen} baud={p.baud} log={",".intercalate (p.log.map fun e => toString e.2)}"
+  | _ => "bad-line"
+
+/-- `gpsdtx|<device hex>|<data hex>|<reply hex or E<failing socket call>>` -/
+def runGpsdTx (dev data reply : String) : String :=
+  let cmd := toHex (Ubx.Gpsd.command (parseHex dev) (parseHex data))
+  if reply.startsWith "E" then
+    let op := String.ofList (reply.toList.drop 1)
+    if op == "connect" || op == "settimeout" then "cmd=none ok=false"
+    else if op == "sendall" || op == "recv" then s!"cmd={cmd} ok={Ubx.Gpsd.transmitOk .socketError}"
+    else s!"cmd={cmd} ok={Ubx.Gpsd.transmitOk (.data [79, 75])}"     -- the reply "OK" was read before the failing call
+  else s!"cmd={cmd} ok={Ubx.Gpsd.transmitOk (.data (parseHex reply))}"
 
 def handle (line : String) : String :=
   match line.trim.splitOn "|" with
@@ -291,22 +483,29 @@ def handle (line : String) : String :=
   | ["specscan", h] => runSpecScan h
   | "seq" :: rest => runSeq rest
   | ["fields", c, pl] => runFields c pl
+  | ["assign", c, pl, f, v] => runAssign c pl f v
   | "keypack" :: rest => runKeyPack rest
   | "keystr" :: rest => runKeyStr rest
   | ["keyunpack", h] => runKeyUnpack h
   | ["fromkey", k, v] => runFromKey k v
+  | ["valset", items] => runValset items
+  | ["valgetpoll", keys] => runValgetPoll keys
+  | ["valget", pl] => runValget pl
   | ["gnss", op, sys, bl] => runGnss op sys bl
+  | "helper" :: rest => runHelper rest
   | ["render", c, v, d] => runRender c v d
+  | ["render", c, v, d, _] => runRender c v d
+  | ["str", c, pl, e] => runStr c pl e
   | ["frame", c, i, pl] => runFrame c i pl
+  | ["framegen", c, i, l, s, m] => runFrameGen c i l s m
   | ["ck", a, b] => runCk a b
+  | ["ckrow", a] => runCkRow a
+  | ["ckm", a, b] => runCkM a b
+  | ["ckseq", h] => runCkSeq h
   | ["scan", i, sc] => runScan i sc
   | ["gpsd", r, c] => runGpsd r c
+  | "tty" :: rest => runTty rest
+  | ["gpsdtx", d, x, r] => runGpsdTx d x r
   | _ => "bad-line"
 
-partial def loop (h : IO.FS.Stream) (out : IO.FS.Stream) : IO Unit := do
-  let line ← h.getLine
-  if line.isEmpty then return ()
-  out.putStrLn (handle line)
-  loop h out
-
-def main : IO Unit := do loop (← IO.getStdin) (← IO.getStdout)
+def main : IO Unit := do loop handle (← IO.getStdin) (← IO.getStdout)
